@@ -28,7 +28,8 @@ func TestReplayStream(t *testing.T) {
 	}
 	defer f.Close()
 	ad := NewAdapter(Config{AdapterName: "idb", Prop: "C19", MkRoot: IDBRoot, ErrMayBeNoop: true, OpTimeout: 5 * time.Second, HangBudget: 1})
-	sums, err := engine.Run(f, "blob", []engine.Adapter{ad}, engine.Options{Workers: 1, OutFile: out})
+	adr := NewAdapter(Config{AdapterName: "idbread", Prop: "C19", MkRoot: IDBRoot, ErrMayBeNoop: true, OpTimeout: 5 * time.Second, HangBudget: 1, ReadEachStep: true})
+	sums, err := engine.Run(f, "blob", []engine.Adapter{ad, adr}, engine.Options{Workers: 1, OutFile: out})
 	if err != nil {
 		t.Fatal(err)
 	}
@@ -55,7 +56,7 @@ func TestReplayFile(t *testing.T) {
 	if err := json.Unmarshal(raw, &rf); err != nil {
 		t.Fatal(err)
 	}
-	ad := NewAdapter(Config{AdapterName: "idb", Prop: "C19", MkRoot: IDBRoot, ErrMayBeNoop: true})
+	ad := NewAdapter(Config{AdapterName: "idb", Prop: "C19", MkRoot: IDBRoot, ErrMayBeNoop: true, ReadEachStep: os.Getenv("VERIF_BLOB_ADAPTER") == "idbread"})
 	obs, divs, err := engine.ReplayOne(ad, rf.Init, rf.State, rf.History, rf.Call, rf.Expected)
 	if err != nil {
 		t.Fatal(err)
